@@ -26,7 +26,7 @@ def find(ctx, name):
 def run(ctx):
     thorough = ctx.tier == "thorough"
     ctx.rule = ("configurations enumerated by TLC: workers 1..3 x queue length 0..2 x burst 0..B (quick 5, thorough 8) x position "
-                "of Stop in the burst x handler pattern {fast, held until Stop was called (queue full, callback blocked), slow} + 2 "
+                "of Stop in the burst x handler pattern {fast, held until Stop was called (queue full, callback blocked), slow, in the handler for eight high watermarks (10 ms) while the server shuts down} + 2 "
                 "requests after Stop returned; each runs the real fNatsServer on an embedded nats-server with a stub processor; "
                 "oracle: handler count = 1 and exactly one reply observable after Serve returned for every request flushed before "
                 "Stop was called, count = 0 for requests published after Stop returned, Stop and Serve return within 5 s; the event "
